@@ -338,7 +338,7 @@ static Stmt* StmtOf(const Edge* e) {
 }
 static int SidOf(const Edge* e) { Stmt* s = StmtOf(e); return s ? s->id : 0; }
 
-struct FailSpec { int code = 0; bool touch = false; };
+struct FailSpec { int code = 0; bool touch = false; bool edep = false; };   // edep: the failing command had already truncated its depfile
 
 struct Running {
   Edge* edge; Stmt* st; string content; int64_t start; bool console;
@@ -517,6 +517,9 @@ struct ModelRunner : public CommandRunner {
       for (auto& o : outs) put(o, Term("garbage", "e" + to_string(st->id), {}), true);
       if (st->deps == "depfile" || st->deps == "gcc")
         put(st->outs[0] + ".d", st->outs[0] + ": " + Join(r.hdrs) + "\n", false);
+    } else if (fs->second.edep) {
+      // e.g. `scan $in > $out.d && compile ...`: the shell truncated the depfile before the first step failed
+      if (st->deps == "depfile" || st->deps == "gcc") put(st->outs[0] + ".d", "", false);
     }
     if (fails) *output += "command failed (e" + to_string(st->id) + ")\n";
     *output += RenderOutput(*st);
@@ -782,7 +785,7 @@ static void ChildInvocation(const JV& step) {
   InvocationCtx inv;
   g_inv = &inv;
   inv.j = (int)step["j"].num(1);
-  for (auto& f : step["fail"].a) inv.fail[(int)f["s"].num()] = FailSpec{(int)f["code"].num(1), f["touch"].boolean()};
+  for (auto& f : step["fail"].a) inv.fail[(int)f["s"].num()] = FailSpec{(int)f["code"].num(1), f["touch"].boolean(), f["edep"].boolean()};
   for (auto& f : step["spawnfail"].a) inv.spawnfail.insert((int)f.num());
   inv.intr_at_wait = (int)step["intr"].num(-1);
   if (step["crash"].t == JV::Obj) { inv.crash_point = step["crash"]["point"].str(); inv.crash_n = (int)step["crash"]["n"].num(1); }
